@@ -80,6 +80,106 @@ pub struct Stats {
     pub violations: Vec<(u64, Script, Violation)>,
 }
 
+pub fn static_class(c: &str) -> &'static str {
+    match c {
+        "panic" => "panic",
+        "independence" => "independence",
+        _ => "mismatch",
+    }
+}
+
+impl Stats {
+    /// Serialises the accumulator for hand-over from a worker process; the
+    /// (possibly large) distinct set goes to a side file.
+    pub fn to_json(&self, side_file: &std::path::Path) -> serde_json::Value {
+        let _ = simcore::procpool::write_u64s(side_file, self.distinct.iter().copied());
+        serde_json::json!({
+            "runs": self.runs, "ops": self.ops, "lib_calls": self.lib_calls, "unmodelled": self.unmodelled,
+            "relaxed": self.relaxed, "skipped_unrepresentable": self.skipped_unrepresentable,
+            "independence_checked": self.independence_checked, "crosschecked": self.crosschecked,
+            "sim_ns": self.sim_ns.to_string(),
+            "fault_configured": self.fault_configured.to_vec(), "fault_fired": self.fault_fired.to_vec(),
+            "probes": self.probes.to_vec(), "readings_hist": self.readings_hist.to_vec(),
+            "outcome_ok": self.outcome_ok, "outcome_err": self.outcome_err,
+            "clock_dependent_ops": self.clock_dependent_ops,
+            "distinct_file": side_file.to_string_lossy(),
+            "batch_hash": format!("{:016x}", self.batch_hash),
+            "samples": self.samples,
+            "by_type": self.by_type,
+            "harness_errors": self.harness_errors,
+            "violations": self.violations.iter().map(|(i, sc, v)| serde_json::json!({
+                "index": i, "script": sc.to_json(), "class": v.class, "detail": v.detail, "op_index": v.op_index,
+            })).collect::<Vec<_>>(),
+        })
+    }
+
+    pub fn from_json(v: &serde_json::Value) -> Stats {
+        let u = |k: &str| v[k].as_u64().unwrap_or(0);
+        let arr = |k: &str, out: &mut [u64]| {
+            if let Some(a) = v[k].as_array() {
+                for (i, x) in a.iter().enumerate().take(out.len()) {
+                    out[i] = x.as_u64().unwrap_or(0);
+                }
+            }
+        };
+        let mut s = Stats {
+            runs: u("runs"),
+            ops: u("ops"),
+            lib_calls: u("lib_calls"),
+            unmodelled: u("unmodelled"),
+            relaxed: u("relaxed"),
+            skipped_unrepresentable: u("skipped_unrepresentable"),
+            independence_checked: u("independence_checked"),
+            crosschecked: u("crosschecked"),
+            sim_ns: v["sim_ns"].as_str().and_then(|x| x.parse().ok()).unwrap_or(0),
+            outcome_ok: u("outcome_ok"),
+            outcome_err: u("outcome_err"),
+            clock_dependent_ops: u("clock_dependent_ops"),
+            batch_hash: v["batch_hash"].as_str().and_then(|h| u64::from_str_radix(h, 16).ok()).unwrap_or(0),
+            ..Stats::default()
+        };
+        arr("fault_configured", &mut s.fault_configured);
+        arr("fault_fired", &mut s.fault_fired);
+        arr("probes", &mut s.probes);
+        arr("readings_hist", &mut s.readings_hist);
+        if let Some(f) = v["distinct_file"].as_str() {
+            if let Ok(items) = simcore::procpool::read_u64s(std::path::Path::new(f)) {
+                s.distinct.extend(items);
+            }
+            let _ = std::fs::remove_file(f);
+        }
+        if let Some(a) = v["samples"].as_array() {
+            s.samples = a.clone();
+        }
+        if let Some(m) = v["by_type"].as_object() {
+            for (k, n) in m {
+                if let Some(ty) = Ty::from_name(k) {
+                    s.by_type.insert(ty.name(), n.as_u64().unwrap_or(0));
+                }
+            }
+        }
+        if let Some(a) = v["harness_errors"].as_array() {
+            s.harness_errors = a.iter().filter_map(|x| x.as_str().map(|y| y.to_string())).collect();
+        }
+        if let Some(a) = v["violations"].as_array() {
+            for x in a {
+                if let Ok(sc) = Script::from_json(&x["script"]) {
+                    s.violations.push((
+                        x["index"].as_u64().unwrap_or(0),
+                        sc,
+                        Violation {
+                            class: static_class(x["class"].as_str().unwrap_or("")),
+                            detail: x["detail"].as_str().unwrap_or("").to_string(),
+                            op_index: x["op_index"].as_u64().unwrap_or(0) as usize,
+                        },
+                    ));
+                }
+            }
+        }
+        s
+    }
+}
+
 impl Merge for Stats {
     fn merge(&mut self, o: Self) {
         self.runs += o.runs;
@@ -494,6 +594,9 @@ pub fn exec_op(
     let e_inv = model::expect(&op.kind, &r_inv);
     let e_alt = model::expect(&op.kind, &r_alt);
     if e_inv == Exp::Unmodelled || e_alt == Exp::Unmodelled {
+        if stats.unmodelled < 5 && std::env::var_os("C18_DEBUG_UNMODELLED").is_some() {
+            eprintln!("unmodelled: {}", op.describe());
+        }
         stats.unmodelled += 1;
         return None;
     }
